@@ -436,7 +436,11 @@ impl Server {
         let must_notify = history.update(
             report, exceptions, metrics,
         );
+        #[cfg(routinator_verif)]
+        crate::verif::point("server.updated");
         history.mark_update_done();
+        #[cfg(routinator_verif)]
+        crate::verif::point("server.marked_done");
         if log::max_level() >= log::Level::Info {
             let (metrics, serial, duration) = {
                 let history = history.read();
@@ -467,6 +471,24 @@ impl Server {
             notify.notify();
         }
         Ok(())
+    }
+}
+
+
+#[cfg(routinator_verif)]
+impl Server {
+    /// Runs one validation cycle exactly as the server loop does.
+    pub fn verif_process_once(
+        config: &Config,
+        engine: &Engine,
+        history: &SharedHistory,
+        notify: &mut NotifySender,
+        exceptions: &LocalExceptions,
+        initial: bool,
+    ) -> Result<(), RunFailed> {
+        Self::process_once(
+            config, engine, history, notify, exceptions, initial
+        )
     }
 }
 
